@@ -11,6 +11,34 @@ NOTE = ("Trusted base: Lean 4.33 kernel (+ leanchecker re-check in the thorough 
         "string/Duration/BTreeSet/StableVec semantics, derive_builder/strum/derive_more/shorthand generated code, derived PartialEq/Ord/Hash. ")
 
 CLAIMS = {
+    "C10": {
+        "technique": "Lean 4 proof over the writers' typed lines (one VERSION line = required_version; RFC section-7 minimum of the written lines <= emitted <= max(minimum, documented slack)) + independent scan of the real text",
+        "text": ("The model's writers are defined through typed lines (MediaPlaylist.writeLines / MasterPlaylist.writeLines, rendered by Line.render) and "
+                 "validated text-for-text against to_string() by the other checks. Proof (Lean 4): media_version_line / media_version_present / "
+                 "master_version_line (exactly one EXT-X-VERSION line, carrying required_version(), omitted iff 1 - for ANY playlist value, parsed or built), "
+                 "media_version_sound / master_version_sound (rfcMin, computed from the written lines alone with RFC 8216 section 7's table incl. the "
+                 "MAP-without-I-FRAMES-ONLY rule, never exceeds the emitted version), media_version_not_inflated_partial (emitted <= max(rfcMin, slack) with "
+                 "slack 6 for any MAP and 2 for a derived IV). PARTIAL: the hypothesis NoDefaultVersions excludes recorded finding K4, proved as "
+                 "k4_counterexample; the master 'not inflated' direction is covered by the oracle only. Tie/oracle: generated and fixture playlists, the full "
+                 "on/off lattice of version-relevant features and built playlists; V and the VERSION line must agree between library and model; an "
+                 "independent Python scanner recomputes the RFC minimum from the real to_string() text."),
+        "design_ref": "DESIGN.md §7 C10",
+        "note": "K4 reported as KNOWN-FINDING.",
+    },
+    "C20": {
+        "technique": "Lean 4 proof (setter commutation, push = segments, parser = build of that builder state, no panic, numbering of built playlists) + builder-script vs text differential run",
+        "text": ("Proof (Lean 4) on the model: setters_commute / setter_last_wins / setter_push_commute / setters_then_pushes (every interleaving of the "
+                 "setter calls with the segment pushes yields the same builder state), pushes_eq_segments (push_segment one by one = segments(vec) for "
+                 "implicitly numbered segments), parser_is_builder + builder_text_agree (the text parser ends in build() of exactly the builder state a "
+                 "user would create for the same content, so acceptance and resulting value coincide for every implicitly numbered content), "
+                 "build_never_panics (any builder whose byte-range values fit the integer type), built_numbering (every built playlist is gap-free, "
+                 "implicit numbers = media_sequence + position, explicit numbers preserved), master_parser_is_builder, master_build_never_panics; the tag "
+                 "builders' rules are C14. Tie: abstract contents realised as text, as push scripts with shuffled/interleaved setters and as segments(vec) "
+                 "scripts must give the same status and observation on library and model and among each other; explicit numbers <= 64 through both paths "
+                 "(no panic, numbering rule); every built value's serialisation must re-parse to its content."),
+        "design_ref": "DESIGN.md §7 C20",
+        "note": "Known findings K9 (a built EXT-X-MAP cannot carry its key coverage) and K4 are reported as KNOWN-FINDING; K3-shaped key histories belong to C03.",
+    },
     "C14": {
         "technique": "Lean 4 proof that each tag's decision table (finish / validate) is exactly the property's rule for ALL accumulator states + exhaustive attribute-subset differential run through text, enclosing playlist and builders",
         "text": ("Proof (Lean 4) on the model: media_build_ok_iff (ExtXMediaBuilder::validate + required fields accept iff TYPE, GROUP-ID, NAME present, URI for "
